@@ -49,6 +49,11 @@ type shape struct {
 	// running invocation when its context is cancelled. Whether such an event is then
 	// still delivered is not judged (0 or 1 times); overlap, order and deadlock are.
 	cancelWaiter bool
+	// cancelAll (with cancelWaiter): the handler cancels, while it processes its first event,
+	// the contexts of ALL the other publishers (so several consecutive queued events lose
+	// their context while one invocation is still running); when everything has settled one
+	// more event is published with a live context: it is delivered, and Wait returns
+	cancelAll bool
 	// nestedSeq: the Sequential handler of type A publishes, from inside its body, an event
 	// of a second type to that type's own Sequential handler (two different handlers, so
 	// this is not the excluded "delivered back to itself" case)
@@ -75,6 +80,15 @@ type shape struct {
 	// a server would. Whatever that publish had already arranged for the Sequential handler
 	// must not block the events after it: they are delivered exactly once, and Wait returns
 	unwind bool
+	// removeRace: behind a plain handler with a scheduling point, the Sequential handler is
+	// removed by another task (1 Unsubscribe, 2 Clear of the type) at an explored point, while
+	// invocations are in flight and publishers are anywhere in the list. Events may miss it
+	// from then on (0 or 1 deliveries each); what was dispatched still never overlaps
+	removeRace int
+	// persistT: the bus persists (MemoryStore) with a persistence timeout far shorter than
+	// the time events spend queued behind the gated first invocation: the timeout bounds the
+	// append, not how long a delivery may wait for its turn
+	persistT bool
 }
 
 type inst struct {
@@ -95,6 +109,9 @@ func (in *inst) Body() {
 		return
 	}
 	bus := eventbus.New()
+	if s.persistT {
+		bus = eventbus.New(eventbus.WithStore(eventbus.NewMemoryStore()), eventbus.WithPersistenceTimeout(100*time.Microsecond))
+	}
 	A := bp.Types[0]
 	gate := make(chan struct{})
 	gated := false
@@ -114,9 +131,18 @@ func (in *inst) Body() {
 	mk := func(hid int) func(context.Context, int) {
 		return func(hctx context.Context, id int) {
 			in.rec.Add("enter", hid, id, "")
-			if s.cancelWaiter && hid == 0 {
+			if s.cancelWaiter && hid == 0 && !s.cancelAll {
 				vrt.Point()
 				cancels[(id/100)%len(cancels)]()
+			}
+			if s.cancelAll && hid == 0 && id < 900 {
+				vrt.Point()
+				for t := range cancels {
+					if t != id/100-1 {
+						cancels[t]()
+					}
+				}
+				vrt.Point()
 			}
 			if hid == 0 {
 				invocations++
@@ -148,7 +174,20 @@ func (in *inst) Body() {
 		A.SubCustom(bus, func(context.Context, int) { vrt.Point() }, nil, evt.SubOpts{})
 		A.SubCustom(bus, func(context.Context, int) {}, nil, evt.SubOpts{Once: true})
 	}
-	A.SubCustom(bus, mk(0), filter, evt.SubOpts{Sequential: true, Async: s.async, Ctx: s.ctx, Reversed: s.reversed})
+	if s.removeRace != 0 {
+		A.SubCustom(bus, func(context.Context, int) { vrt.Point() }, nil, evt.SubOpts{})
+	}
+	unsub0, _ := A.SubCustom(bus, mk(0), filter, evt.SubOpts{Sequential: true, Async: s.async, Ctx: s.ctx, Reversed: s.reversed})
+	if s.removeRace != 0 {
+		vrt.Go(func() {
+			vrt.Point()
+			if s.removeRace == 1 {
+				unsub0()
+			} else {
+				A.Clear(bus)
+			}
+		})
+	}
 	if s.second {
 		A.SubCustom(bus, mk(1), nil, evt.SubOpts{Sequential: true, Async: s.async, Reversed: s.reversed})
 	}
@@ -199,6 +238,12 @@ func (in *inst) Body() {
 	}
 	vrt.Join()
 	bus.Wait()
+	if s.cancelAll {
+		in.rec.Add("call", 999, 0, "")
+		A.Pub(bus, 999)
+		in.rec.Add("ret", 999, 0, "")
+		bus.Wait()
+	}
 }
 
 // bodyIndependentHandlers: two different Sequential handlers must not hinder each other -
@@ -344,6 +389,9 @@ func (in *inst) Check(res *vrt.Result) []vrt.Violation {
 			}
 		}
 		var extra []int
+		if in.s.cancelAll {
+			extra = append(extra, 999)
+		}
 		for t, n := range in.s.pubs {
 			if n > 0 && in.s.republish != 0 {
 				extra = append(extra, 900+(t+1))
@@ -351,7 +399,11 @@ func (in *inst) Check(res *vrt.Result) []vrt.Violation {
 		}
 		for _, id := range extra {
 			if cnt[id] != 1 {
-				bad("delivery-count", fmt.Sprintf("%s sequential handler received a re-published event %d times", kindOf(in.s), cnt[id]), fmt.Sprintf("handler %d event %d", hid, id))
+				what := "a re-published event"
+				if id == 999 {
+					what = "an event published with a live context after queued events had lost theirs"
+				}
+				bad("delivery-count", fmt.Sprintf("%s sequential handler received %s %d times", kindOf(in.s), what, cnt[id]), fmt.Sprintf("handler %d event %d", hid, id))
 			}
 		}
 		for t, n := range in.s.pubs {
@@ -359,6 +411,12 @@ func (in *inst) Check(res *vrt.Result) []vrt.Violation {
 				id := 100*(t+1) + i
 				if in.s.cancelWaiter && cnt[id] == 0 {
 					continue // its context may have been cancelled before it was dispatched
+				}
+				if in.s.removeRace != 0 {
+					if cnt[id] > 1 {
+						bad("delivery-count", fmt.Sprintf("%s sequential handler received an event %d times", kindOf(in.s), cnt[id]), fmt.Sprintf("handler %d event %d", hid, id))
+					}
+					continue // removed at some point: the events after that do not reach it
 				}
 				if in.s.unwind && i == 1 {
 					if cnt[id] > 1 {
@@ -444,8 +502,15 @@ func shapes(thorough bool) []shape {
 		{name: "sync/behind-a-plain-and-a-once-handler/2+1", onceBefore: true, pubs: []int{2, 1}},
 		{name: "async/behind-a-plain-and-a-once-handler/2publishers", onceBefore: true, async: true, pubs: []int{1, 1}},
 		{name: "async/a-later-filter-panics-and-the-publish-unwinds/one-publisher-3", async: true, unwind: true, pubs: []int{3}},
-		{name: "async/a-later-filter-panics-and-the-publish-unwinds/two-publishers", async: true, unwind: true, pubs: []int{2, 2}},
+		{name: "async/a-later-filter-panics-and-the-publish-unwinds/two-publishers", async: true, unwind: true, pubs: []int{2, 1}},
 		{name: "sync/a-later-filter-panics-and-the-publish-unwinds/two-publishers", unwind: true, pubs: []int{3, 2}},
+		{name: "async/unsubscribed-while-invocations-are-in-flight/two-publishers", async: true, removeRace: 1, pubs: []int{1, 1}},
+		{name: "async/type-cleared-while-invocations-are-in-flight/two-publishers", async: true, removeRace: 2, pubs: []int{1, 1}},
+		{name: "sync/unsubscribed-while-invocations-are-in-flight/two-publishers", removeRace: 1, pubs: []int{1, 1}},
+		{name: "async/persisting-bus-with-a-short-persistence-timeout/backlog-behind-a-gated-invocation", async: true, persistT: true, gate: true, pubs: []int{3}},
+		{name: "async/persisting-bus-with-a-short-persistence-timeout/two-publishers", async: true, persistT: true, pubs: []int{2, 1}},
+		{name: "async/3publishers-all-queued-contexts-cancelled-by-the-running-invocation", async: true, cancelWaiter: true, cancelAll: true, pubs: []int{1, 1, 1}},
+		{name: "sync/3publishers-all-waiting-contexts-cancelled-by-the-running-invocation", cancelWaiter: true, cancelAll: true, pubs: []int{1, 1, 1}},
 		{name: "sync/sequential-handler-publishes-to-another-sequential-handler", nestedSeq: true, pubs: []int{0}},
 		{name: "async/sequential-handler-publishes-to-another-sequential-handler", nestedSeq: true, async: true, pubs: []int{0}},
 		{name: "sync/sequential-handlers-on-two-buses-one-waits-for-the-other", twoBuses: true, pubs: []int{0}},
